@@ -274,16 +274,16 @@ def eval_float(t):
         return float("nan")
     s = b.replace("_", "")
     if ":" in s:
-        v = 0.0
+        # the exact rational value, rounded once (the library sums rounded terms: the comparison allows 1e-12 relative);
+        # a value beyond the range of a double is infinite, as float("1.0e+400") is
+        from fractions import Fraction
+        total = Fraction(0)
         for p in s.split(":"):
-            v = v * 60 + float(p)
-        # the implementation sums digit*base from the right; evaluate identically-valued but independently:
-        parts = [float(p) for p in s.split(":")]
-        v = 0.0
-        base = 1.0
-        for p in reversed(parts):
-            v += p * base
-            base *= 60
+            total = total * 60 + Fraction(p + "0" if p.endswith(".") else p)
+        try:
+            v = float(total)
+        except OverflowError:
+            v = float("inf")
     else:
         v = float(s)
     return -v if neg else v
